@@ -63,6 +63,7 @@ def run(ctx):
     chk.rule("R05.3", "keys with a rule (float operators) == documented differentiable set")
     chk.rule("R05.4", "missing rule => only error returns")
     chk.rule("R05.5", "partial_deepex = inner(expr, table) * outer(expr, table); lookups compare with the expression's own operator names")
+    chk.rule("R05.7", "the names and the functions of a unary composition stay aligned: remove_latest drops index 0 of both, append_after prepends to both")
     chk.rule("R05.6", "every operator name emitted by a rule exists with that arity in FloatOpsFactory and ValOpsFactory")
     body, tab, meta = extract_all(chk, fb, "R05.1")
     jobs = []
@@ -217,3 +218,38 @@ def run(ctx):
             chk.violation("R05.6", "name:%s:%s/%d" % (fac, nm, ar), "a derivative rule emits operator %r with arity %d, which %s does not define: differentiation would fail at run time" % (nm, ar, fac), loc(mk["span"]))
     chk.ok("R05.6", "emitted operator names", str(sorted(emitted)))
     chk.floor("R05.6", "emitted names", len(emitted), 10)
+
+    # ---- R05.7 parallel lists (names / functions) of a unary composition
+    from analysis import dom as _dom
+
+    def calls_of(suffix):
+        bs = fb.find_bodies(lambda b: b["kind"] == "AssocFn" and b["path"].endswith(suffix))
+        if len(bs) != 1:
+            return None, []
+        o = _dom.Origins(bs[0])
+        return bs[0], [(mir.callee_path(t) or "?", [o.op_term(a) for a in t["args"]], t["span"]) for _, t in mir.calls(bs[0])]
+    wb, wcalls = calls_of("deep::UnaryOpWithReprs::<'a, T>::remove_latest")
+    ub, ucalls = calls_of("operators::UnaryOp::<T>::remove_latest")
+    if wb is None or ub is None:
+        chk.violation("R05.7", "anchor:remove_latest", "remove_latest of UnaryOpWithReprs / UnaryOp not found")
+    else:
+        r_names = [c for c in wcalls if c[0].endswith("::remove") and c[1][0].endswith(".reprs")]
+        r_del = [c for c in wcalls if c[0].endswith("UnaryOp::<T>::remove_latest")]
+        r_fn = [c for c in ucalls if c[0].endswith("::remove")]
+        if len(r_names) == 1 and len(r_del) == 1 and len(r_fn) == 1 and r_names[0][1][1] == r_fn[0][1][1] and re.match(r"^\d+_usize$", r_fn[0][1][1]):
+            chk.ok("R05.7", "remove_latest drops the same position of names and functions", "index %s" % r_fn[0][1][1], loc(wb["span"]))
+        else:
+            chk.violation("R05.7", "misaligned:remove_latest", "removing the outermost unary operator drops %s of the names but %s of the functions: a derivative would be looked up under the wrong operator name" % (
+                [c[1][1:] for c in r_names] or [c[0] for c in wcalls], [c[1][1:] for c in r_fn]), loc(wb["span"]))
+    ab, acalls = calls_of("deep::UnaryOpWithReprs::<'a, T>::append_after")
+    if ab is None:
+        chk.violation("R05.7", "anchor:append_after", "UnaryOpWithReprs::append_after not found")
+    else:
+        ch = [c for c in acalls if c[0] == "std::iter::Iterator::chain"]
+        fo = [c for c in acalls if c[0].endswith("UnaryOp::<T>::append_after")]
+        names_other_first = len(ch) == 1 and "param:other" in ch[0][1][0] and "param:self" in ch[0][1][1]
+        fn_ok = len(fo) == 1 and fo[0][1] == ["param:self.op", "param:other.op"]
+        if names_other_first and fn_ok:
+            chk.ok("R05.7", "append_after prepends the other composition's names and functions alike", "", loc(ab["span"]))
+        else:
+            chk.violation("R05.7", "misaligned:append_after", "append_after does not add the names in the same place as the functions (functions: new ones first, C01 R01.7)", loc(ab["span"]))
